@@ -219,7 +219,7 @@ func ruleGuardCompose(c *Ctx) {
 			c.bad(key, call, fmt.Sprintf("%s: the exponent `%s` reaches compose without passing the overflow guard `> maxBiasedExponent -> ±Inf` (a result above the largest exponent would be packed into the 14-bit field and wrap)", name, p.exprStr(expArg)), fp...)
 		})
 	}
-	if total < 36 {
+	if total < 30 {
 		c.undecided("compose.count", nil, fmt.Sprintf("only %d compose call sites found", total))
 	}
 }
